@@ -49,24 +49,24 @@ _REP = None
 
 
 def rep():
+    """where the store classes are and which methods take the lock: read off the current source without interpreting
+    statements, so it does not depend on the translator having recognised the source (WAVE3 addendum)"""
     global _REP
     if _REP is None:
-        try:
-            m, lines, ranges, spans = lockcfg.extract()
-            _REP = {"lines": lines, "ranges": ranges, "methods": {n: k for n, k, _ in m}}
-        except Exception:
-            # the translator no longer recognises the source: the oracle keeps running on line ranges alone
-            _REP = lockcfg.ranges_only()
+        _REP = lockcfg.layout()
     return _REP
 
 
 # ---------------------------------------------------------------------------------------------
 # case generation
 
+UNH_KINDS = ["get_graph_unh", "extract_graph_unh", "del_graph_unh", "add_blank_unh"]     # failing calls: unhashable graph id
 SEQ_KINDS = ["add_graph", "add_graph", "add_graph_bad", "add_graph_direct", "del_graph", "extract_graph", "get_graph",
-             "add_blank", "add_node", "del_all_graphs"]
+             "add_blank", "add_node", "del_all_graphs"] * 2 + UNH_KINDS
 THR_KINDS = ["add_graph", "add_blank", "add_node", "add_blank", "add_graph_direct", "del_graph", "extract_graph", "get_graph",
-             "add_graph_bad"]
+             "add_graph_bad", "del_all_graphs"] * 3 + UNH_KINDS
+EXPECT_ERR = {"add_graph_bad": "import", "get_graph_unh": "type", "extract_graph_unh": "type", "del_graph_unh": "type",
+              "add_blank_unh": "type"}
 
 SEQ_CORNERS = [
     [["add_graph", 1, 2], ["add_graph", 1, 2]],                                      # duplicate id
@@ -76,6 +76,8 @@ SEQ_CORNERS = [
     [["add_graph_direct", 1, 2], ["add_graph_direct", 1, 3], ["add_graph", 1, 1], ["del_all_graphs", 1, 0], ["add_node", 1, 1]],
     [["add_node", 1, 1], ["add_node", 1, 1], ["add_blank", 2, 1], ["del_graph", 1, 0], ["add_blank", 1, 1]],
     [["add_graph", 1, 0], ["add_graph", 1, 1], ["add_graph_bad", 2, 1], ["del_graph", 3, 0]],
+    [["add_graph", 1, 2], ["get_graph_unh", 1, 1], ["add_blank", 1, 1], ["extract_graph_unh", 1, 1], ["get_graph", 1, 0],
+     ["del_graph_unh", 1, 1], ["add_blank_unh", 1, 1], ["del_graph", 1, 0]],                  # failing calls must give the lock back
 ]
 
 
@@ -146,7 +148,7 @@ def call_views(rec):
         ev = [e for e in rec.events[c["start"]:c.get("end", len(rec.events))] if e[0] == c["tid"]]
         sym = [e[1] for e in ev]
         nacq = sum(1 for m in sym if m == ["acq"])
-        out.append({"method": c["method"], "tid": c["tid"], "outcome": c["outcome"], "trace": sym,
+        out.append({"method": c["method"], "tid": c["tid"], "outcome": c["outcome"], "trace": sym, "ctx": list(c.get("ctx", (1, 0))),
                     "acq": nacq, "rel_events": sum(1 for m in sym if m == ["rel"]), "held_after": c.get("held_after", False)})
     return out
 
@@ -160,7 +162,7 @@ def impl_lock_view(v):
 
 def path_request(v):
     o = "done" if v["outcome"] == "done" else "exc"
-    return json.dumps(["path", v["method"], v["trace"], o])
+    return json.dumps(["path", v["method"], v["ctx"][0], v["ctx"][1], v["trace"], o])
 
 
 def sched_request(r, nthreads):
@@ -168,7 +170,7 @@ def sched_request(r, nthreads):
     n = nthreads + 1                      # thread `nthreads` = sequential setup
     progs = [[] for _ in range(n)]
     sched = []
-    for tid, sym, conc in r["events"]:
+    for tid, conc in r["events"]:
         progs[tid].append(conc)
         sched.append(tid)
     flavour_ctr = [0] if r["flavour"] == "shared" else r["graphs"]
@@ -220,14 +222,17 @@ def store_nodeids(flavour, imp):
     out = {}
     if flavour == "shared":
         for n, d in st.graphs.nodes(data=True):
-            out.setdefault(d.get("GraphID"), []).append(d.get("NodeID"))
+            if isinstance(d.get("GraphID"), str):            # (a node created under an unhashable id belongs to no graph id)
+                out.setdefault(d.get("GraphID"), []).append(d.get("NodeID"))
     else:
         for name, G in st.graphs.items():
             for n, d in G.nodes(data=True):
-                out.setdefault(d.get("GraphID", name), []).append(d.get("NodeID"))
+                if isinstance(d.get("GraphID", name), str):
+                    out.setdefault(d.get("GraphID", name), []).append(d.get("NodeID"))
     return out
 
 
+REBUILDERS = {"add_graph", "add_graph_direct", "add_graph_bad", "del_graph", "del_all_graphs"}
 MUTATORS = {"add_graph", "add_graph_direct", "del_graph", "del_all_graphs", "add_blank_node_to_graph"}
 
 
@@ -254,6 +259,29 @@ def check_calls(case, views, results, res, payload):
             res.violation("C20:%s:%s:%s" % (v["method"], why, path),
                           "%s: %s on the %s (trace %s)" % (v["method"], why, path, v["trace"]), payload,
                           expected="lock acquired once, released once, free afterwards", observed=v["trace"])
+
+
+def check_results(case, ops_results, res, payload):
+    """no call fails because of what other threads do: an operation that succeeds when the calls run one after another must
+    not raise (lock errors and self-deadlocks are check_calls' business)"""
+    fl = case["flavour"]
+    # a node created through the API and deleted by another thread before its properties are set makes the second step fail:
+    # that is what deleting concurrently means, not a lost node
+    rebuilds = sum(1 for ops in case.get("threads", []) if any(o[0] in REBUILDERS for o in ops))
+    for op, r in ops_results:
+        res.evaluations += 1
+        if r[0] != "err" or r[1] == "deadlock" or EXPECT_ERR.get(op[0]) is not None:
+            continue
+        msg = r[2] if len(r) > 2 else ""
+        if "release unlocked lock" in msg:
+            continue
+        scan = "changed size during iteration" in msg
+        if not scan and rebuilds and op[0] == "add_node" and r[1] == "key":
+            continue
+        why = "scan-disturbed-by-concurrent-insert" if scan else "unexpected-" + r[1]
+        res.violation("C20:%s:%s:%s" % (fl, op[0], why),
+                      "%s store: %s fails with %s (%s); the same call succeeds when the operations run one after another" % (
+                          fl, op[0], r[1], msg), payload, expected="ok", observed=r)
 
 
 def check_final(case, r, results, imp, res, payload, ordered_ops, blank_ids):
@@ -309,6 +337,7 @@ def eval_seq(case, res):
     views = call_views(rec)
     payload = case
     check_calls(case, views, results, res, payload)
+    check_results(case, list(zip(case["ops"], results)), res, payload)
     ordered = ordered_ops_of(rec, {str(j): op for j, op in enumerate(case["ops"])})
     blank = [(op[1] if case["flavour"] == "disjoint" else 0, r[1]) for op, r in zip(case["ops"], results) if op[0] == "add_blank" and r[0] == "ok"]
     # ids of deleted graphs may be reused in the per-graph store after the graph was rebuilt: only compare ids of live nodes
@@ -329,6 +358,7 @@ def eval_thr(case, res):
     views = call_views(rec)
     payload = dict(case, decisions=[d[1] for d in r["log"]])
     check_calls(case, views, r["results"], res, payload)
+    check_results(case, [(op, rr) for ops, rs in zip(case["threads"], r["results"]) for op, rr in zip(ops, rs)], res, payload)
     by_uniq = {"%d-%d" % (t, j): op for t, ops in enumerate(case["threads"]) for j, op in enumerate(ops)}
     by_uniq.update({"s%d" % j: op for j, op in enumerate(case.get("setup", ()))})
     ordered = ordered_ops_of(rec, by_uniq)
@@ -360,8 +390,6 @@ def locked_preemption(log, events):
 
 
 def correspondence(ctx, res):
-    if rep().get("degraded"):
-        raise RuntimeError("no line table: the translator failed, correspondence cannot be run")
     drv = LeanDriver("C20")
     rng = ctx.sub_rng("corr")
     reqs, impl, cases = [], [], []
